@@ -51,8 +51,19 @@ def run_case(cls, params, rec):
 	spec = params["spec"]
 	A, L, n, ns = params["A"], params["L"], params["n"], params["n_shuffles"]
 	model = dls.build(spec, params["wseed"], params.get("weights", "float"))
-	plain = copy.deepcopy(model)
 	X, refs = make_inputs(dict(params, refs="given"))
+	if params.get("prior_float32_call"):
+		# call history on the SAME model object: used in single precision
+		# first, then converted to double (anything cached on the modules by
+		# the first call must not leak into the second).  The reference copy
+		# is taken afterwards, so both see the same (rounded) weights.
+		model.float()
+		gen.call(deep_lift_shap, model, X.float(), target=params["target"],
+			batch_size=params["batch_size"], device="cpu",
+			references=refs.float())
+		model.double()
+		rec.count("prior_float32_calls")
+	plain = copy.deepcopy(model)
 	target = params["target"]
 	desc = {"arch": dls.describe(spec), "A": A, "L": L, "n": n,
 		"n_shuffles": ns, "batch_size": params["batch_size"],
@@ -194,7 +205,8 @@ def gen_case(seed, k):
 		spec = dls.gen_arch(r, A, L, force_act=force)
 	n, ns = 3, 3
 	return {"A": A, "L": L, "spec": spec, "wseed": r.randrange(10 ** 6),
-		"weights": "int" if k % 7 == 3 else "float", "n": n,
+		"weights": "int" if k % 7 == 3 else "big" if k % 7 == 5 else "float",
+		"n": n, "prior_float32_call": k % 8 == 6,
 		"n_shuffles": ns, "batch_size": r.choice([1, 2, 4, 9, 10, 32]),
 		"target": r.randrange(dls.n_targets(spec)), "near": r.random() < 0.5,
 		"iseed": r.randrange(10 ** 6),
